@@ -189,7 +189,7 @@ T["T6"] = (doc(
                                       (CMP("SELF", "-50", "&gt;"), SPLINE([(-50, -1), (100, 0), (127, 27)], 1)))     # overlaps the first context on (-50, 0)
         + DEFCAL(SPLINE([(-128, -1), (0, 0), (127, 1)], 0, "true")))
     + '<xtce:RelativeTimeParameterType name="RT_T"><xtce:Encoding units="ms" offset="-5"><xtce:IntegerDataEncoding sizeInBits="4"/></xtce:Encoding></xtce:RelativeTimeParameterType>'
-    + ('<xtce:EnumeratedParameterType name="EC_T"><xtce:IntegerDataEncoding sizeInBits="4" encoding="signed">' + DEFCAL(POLY((3.0, 1)))
+    + ('<xtce:EnumeratedParameterType name="EC_T"><xtce:UnitSet/><xtce:IntegerDataEncoding sizeInBits="4" encoding="signed">' + DEFCAL(POLY((3.0, 1)))
        + '</xtce:IntegerDataEncoding><xtce:EnumerationList><xtce:Enumeration label="NEG" value="-1"/><xtce:Enumeration label="ZERO" value="0"/>'
          '<xtce:Enumeration label="SEVEN" value="7"/></xtce:EnumerationList></xtce:EnumeratedParameterType>'),
     params=[("FC", "FC_T"), ("SELF", "SELF_T"), ("RT", "RT_T"), ("EC", "EC_T")],
